@@ -51,3 +51,30 @@ Theorem C01_serial_ends : forall c rels, wfb c = true -> (forall y, maxpar_of c 
   (fst (serial_run sched_params c rels) <> BadOracle).
 Proof. exact (serial_ends sched_params eq_refl eq_refl). Qed.
 Print Assumptions C01_serial_ends.
+
+(* ---- the process backends: the detailed model of the coordinator over ProcessRunner / ProcessExecutor (Model/Intr.v: the
+   executor's queue and worker slots, workers finishing between polls, the generator protocol of wait(), future bookkeeping;
+   tied to the real code by the tick-level runs of C14) refines the abstract scheduler model whenever no interrupt arrives:
+   every run of it is a run of Sched under some completion oracle, with the same returned dict (or the same LabError) and the
+   same final coordinator state, history included.  So every statement of this file — and of C02-C05, C10, C11, C17 — proved
+   for all oracles holds for the process-runner model as well. *)
+Require Import LT.Model.Intr LT.Proofs.IntrRefine.
+Definition proc_params_src : iparams :=
+  {| ip := sched_params; ip_gen := gen_mode_src; ip_drain_swallows := drain_swallows_src;
+     ip_stop_swallows := stop_swallows_src; ip_stop_cancels := stop_cancels_src |}.
+Theorem C01_process_runner_refines : forall c maxw o, wf c -> (forall y, maxpar_of c y <> Some 0) ->
+  match run_intr proc_params_src c maxw o None None with
+  | (IReturned r, w) => exists o', run sched_params c o' = (Returned r, ws w)
+  | (IRaised (LabErr t), w) => exists o', run sched_params c o' = (RaisedLabError t, ws w)
+  | (IOutOfOracle, _) => True
+  | (IRaised _, _) => False
+  end.
+Proof. exact (fun c maxw o Hw Hc => intr_refines_sched proc_params_src c Hw eq_refl eq_refl eq_refl Hc eq_refl maxw o). Qed.
+Print Assumptions C01_process_runner_refines.
+
+Theorem C01_process_runner_returns_reference : forall c maxw o r w,
+  wfb c = true -> store_sound c -> (forall t, In t (req c) -> pure c t <> None) -> (forall y, maxpar_of c y <> Some 0) ->
+  run_intr proc_params_src c maxw o None None = (IReturned r, w) ->
+  map (fun kv => (fst kv, Some (snd kv))) r = map (fun t => (t, pure c t)) (dedup (req c)).
+Proof. exact (process_runner_returns_reference proc_params_src eq_refl eq_refl eq_refl eq_refl). Qed.
+Print Assumptions C01_process_runner_returns_reference.
